@@ -24,6 +24,7 @@ Directives (one per line, leading whitespace ignored):
       //@closure K [RET_TYPE]  ... contract for the K-th closure (a last call argument): `|x| e)` -> `|x| -> (ret: T) <text> { e })`
       //@afterblock "TOKEN" [#k] ... right after the block statement (if/match/unsafe, with its else branches) starting at the token
       //@loopafter K          ... right after the closing `}` of the K-th loop
+      //@afteropen "tok"    ... at the head of the block that follows the token (right after its `{`)
       //@loop K [bind=ID]     ... before the `{` of the K-th loop (invariant/decreases); bind= names a for-iterator
       //@loopbody K           ... at the start of the K-th loop's body
       //@loopend K            ... at the end of the K-th loop's body
@@ -533,6 +534,22 @@ def expand_macro(text, spec, rel_file):
     return blank + body + '\n'
 
 
+def closure_head_at(text, pos):
+    """is the `|` at pos the start of a closure head (expression position) rather than a binary `|` / `||` (after an operand)?"""
+    j = pos - 1
+    while j >= 0 and text[j].isspace():
+        j -= 1
+    if j < 0:
+        return True
+    ch = text[j]
+    if ch.isalnum() or ch == '_':
+        k = j
+        while k >= 0 and (text[k].isalnum() or text[k] == '_'):
+            k -= 1
+        return text[k + 1:j + 1] in ('move', 'return', 'in', 'else', 'break')
+    return ch not in ')]}"\'?'
+
+
 def weave_fn(src, container, name, nth, opts, subs, mode, sig_only=False):
     """returns (woven_text, record)"""
     s, o, c = src.find_fn(container, name, nth)
@@ -641,8 +658,8 @@ def weave_fn(src, container, name, nth, opts, subs, mode, sig_only=False):
     if not stub and not sig_only and bo >= 0:
         # every verified body: the number of closure-like `|..|` heads is locked.  A closure the proof was not written for has no
         # contract, Verus then knows nothing about its result, and a harmless rewrite would fail to verify (a false alarm)
-        nheads = len([m for m in re.finditer(r'\|[A-Za-z0-9_,: ]*\|', b.text) if m.start() > bo and b.mask[m.start()]])
-        ntup = len([m for m in re.finditer(r'\|\s*\([^|()]*\)\s*\|', b.text) if m.start() > bo and b.mask[m.start()]])
+        nheads = len([m for m in re.finditer(r'\|[A-Za-z0-9_,: ]*\|', b.text) if m.start() > bo and b.mask[m.start()] and closure_head_at(b.text, m.start())])
+        ntup = len([m for m in re.finditer(r'\|\s*\([^|()]*\)\s*\|', b.text) if m.start() > bo and b.mask[m.start()] and closure_head_at(b.text, m.start())])
         check_anchor('%s|closure-heads' % akey, nheads + ntup)
     spec_lines = []
     attrs = []
@@ -776,6 +793,27 @@ def weave_fn(src, container, name, nth, opts, subs, mode, sig_only=False):
                     j = k + 4
                     continue
                 break
+            b.add(j + 1, '\n' + body_text + '\n')
+        elif kind == 'afteropen':
+            # at the head of the block that follows the token (`None => {`, `else {`): right after its opening brace
+            m = re.match(r'\s*"((?:[^"\\]|\\.)*)"\s*(?:#(\d+))?\s*$', arg)
+            if not m:
+                raise Undecided('bad anchor syntax: %s' % arg)
+            needle = m.group(1).replace('\\"', '"')
+            kth = int(m.group(2) or 1)
+            check_anchor('%s|%s' % (akey, needle), count_code(b, needle, bo))
+            pos = bo
+            for _ in range(kth):
+                pos = b.code_find(needle, pos + 1)
+                if pos < 0:
+                    raise Undecided('anchor lost: %r in %s::%s' % (needle, container, name))
+            j = pos + len(needle)
+            while j < len(b.text) and not (b.mask[j] and b.text[j] == '{'):
+                if b.mask[j] and b.text[j] in ';}':
+                    raise Undecided('anchor lost (no block after): %r in %s::%s' % (needle, container, name))
+                j += 1
+            if j >= len(b.text):
+                raise Undecided('anchor lost (no block after): %r in %s::%s' % (needle, container, name))
             b.add(j + 1, '\n' + body_text + '\n')
         elif kind == 'lettype':
             nm, ty = arg.split(None, 1)
